@@ -236,8 +236,15 @@ func caseC08(r *rand.Rand, cw *CalcWriter, label string, maxT int) {
 		// presentations: each tree under another rooting / child order (inner node as root: stays unrooted)
 		ref := present(r, x, r.Intn(3))
 		cmp := present(r, y, r.Intn(3))
+		hist := ""
+		if !mismatch && r.Intn(3) == 0 {
+			hist = "ref:" + staleEdits(r, ref)
+			if r.Intn(2) == 0 {
+				hist += " cmp:" + staleEdits(r, cmp)
+			}
+		}
 		pr, pc := project(ref, ProjOpt{}), project(cmp, ProjOpt{})
-		args := map[string]interface{}{"tips": tips, "identical": identical, "rel": rel, "swap": swap == 1}
+		args := map[string]interface{}{"tips": tips, "identical": identical, "rel": rel, "swap": swap == 1, "history": hist}
 		ev := &CEvent{Kind: "Compare", Prop: "C08", Case: label, Trees: []*PTree{pr, pc}, Args: args}
 		ev.guard(calcTimeout, func() error {
 			ch, err := tree.Compare(ref, feed([]*tree.Tree{cmp}), tips, identical, 1)
@@ -259,6 +266,10 @@ func caseC08(r *rand.Rand, cw *CalcWriter, label string, maxT int) {
 		// weighted
 		ref2 := present(r, x, r.Intn(3))
 		cmp2 := present(r, y, r.Intn(3))
+		if r.Intn(3) == 0 {
+			staleEdits(r, ref2)
+			staleEdits(r, cmp2)
+		}
 		ev2 := &CEvent{Kind: "CompareWeighted", Prop: "C08", Case: label, Trees: []*PTree{project(ref2, ProjOpt{}), project(cmp2, ProjOpt{})},
 			Args: map[string]interface{}{"tips": tips, "identical": false, "rel": rel, "swap": swap == 1}}
 		ev2.guard(calcTimeout, func() error {
@@ -326,6 +337,14 @@ func caseC09(r *rand.Rand, cw *CalcWriter, label string, maxT int) {
 		}
 		ts = append(ts, present(r, s, how))
 	}
+	hist := ""
+	if r.Intn(3) == 0 {
+		for _, t := range ts {
+			if r.Intn(2) == 0 {
+				hist += staleEdits(r, t) + " "
+			}
+		}
+	}
 	cut := dyadicCutoffs[r.Intn(len(dyadicCutoffs))]
 	kind := "Consensus"
 	x := r.Intn(14)
@@ -346,7 +365,7 @@ func caseC09(r *rand.Rand, cw *CalcWriter, label string, maxT int) {
 	}
 	cutoff := float64(cut[0]) / float64(cut[1])
 	ev := &CEvent{Kind: kind, Prop: "C09", Case: label, Trees: projAll(ts, ProjOpt{}),
-		Args: map[string]interface{}{"num": cut[0], "den": cut[1], "rooted_inputs": rootedInputs}}
+		Args: map[string]interface{}{"num": cut[0], "den": cut[1], "rooted_inputs": rootedInputs, "history": hist}}
 	ev.guard(calcTimeout, func() error {
 		c, err := tree.Consensus(feed(ts), cutoff)
 		if err != nil {
@@ -398,6 +417,22 @@ func caseC10(r *rand.Rand, cw *CalcWriter, label string, maxT int) {
 		// other order of the bootstrap trees for the second method run of the same case
 		if method == "TBE" {
 			r.Shuffle(len(boots), func(i, j int) { boots[i], boots[j] = boots[j], boots[i] })
+		}
+		if mismatchAt < 0 && r.Intn(3) == 0 {
+			staleEdits(r, ref)
+			for _, b := range boots {
+				if r.Intn(2) == 0 {
+					staleEdits(r, b)
+				}
+			}
+			for i, e := range ref.Edges() {
+				e.SetId(i)
+			}
+			if method == "TBE" {
+				// TBE documents no indexing of the reference tree: its callers (gotree compute support tbe/booster)
+				// index it first, and so does the harness; FBP and the bootstrap trees are indexed by the functions
+				ref.ReinitIndexes()
+			}
 		}
 		trees := append([]*PTree{project(ref, ProjOpt{})}, projAll(boots, ProjOpt{})...)
 		kind := method
